@@ -1,7 +1,9 @@
 import SpecterModel.C01.Sim
 import SpecterModel.C08.Props
+import SpecterModel.C08.LocksProps
 /-! C08 driver: a join request must be answered with success, a retryable refusal, the duplicate-id
-refusal or a routing (lookup/transport) error — never a panic, a crash, a hang or another error. -/
+refusal or a routing (lookup/transport) error — never a panic, a crash, a hang or another error.
+(LocksProps is imported so that the lock-order obligation is part of every build of the driver.) -/
 namespace Specter.C08
 open Specter.Util Specter.Ring
 
@@ -31,6 +33,23 @@ def spec (net _net' : Net) (toks : List String) (ires : String) : Option String 
     else some s!"join request answered with {ires}"
   | _ => none
 
-def main : IO Unit := runLoop ([] : Net) (ringStep spec)
+/-- `reqjoinstab <b> <j> => <answer>`: a join request sent to the sole survivor `b` of a ring while b's own
+stabilize round stores the collapsed successor list inside the request's key transfer (two real goroutines, forced
+interleaving). No model comparison (the model is sequential; the net is left as it was and the case ends here):
+the line is judged by the property's oracle alone — the request is at b, which is alive, Active and responsible
+for the joiner, so the answer has to be the hand-off or a retryable refusal; `timeout` (never answered: the node
+is wedged), `crash` or any other error violate C08. -/
+def survivorVerdict (ires : String) : Verdict :=
+  if ires.startsWith "ok:" || (allowedRefusals.contains ires && !lookupErrNames.contains ires) then .ok
+  else if ires == "timeout" then
+    .spec "join request sent to the sole survivor of a ring was never answered (its stabilize stored the collapsed successor list inside the key transfer: the node is wedged)"
+  else .spec s!"join request sent to the sole survivor of a ring while its stabilize stores the collapsed successor list answered with {ires}"
+
+def step (net : Net) (toks : List String) (rhs : String) : Net × Verdict :=
+  match toks with
+  | "reqjoinstab" :: _ => (net, survivorVerdict (splitRhs rhs).1)
+  | _ => ringStep spec net toks rhs
+
+def main : IO Unit := runLoop ([] : Net) step
 
 end Specter.C08
